@@ -10,11 +10,21 @@ its last gate (only barriers may follow inside the range), gate list exact, ever
 expression (identity when none is reported) equals the simulated final value on every basis
 state.  Correspondence: the same circuits through the Lean model (QV.Model.Decompiler) with the
 active quirks: error text / index ranges / gate lists exact, expressions by truth table.
+
+Gate OBJECTS shared between positions: an applied gate is a tuple (gate object, wires, param) and gate objects
+compare by identity, so two positions hold equal tuples exactly when the same object sits on the same wires
+(`qc += sub` twice, append_circuit twice, `qc += qc`).  `sharing_cases` / `random_shared_cases` build such circuits
+gate by gate (equal JSON id > 0 = one object, harness/circ.py build_qc) and through the real composition API
+(`circ.build_api`, recipes), `wide_cases` / `random_wide_cases` circuits on 10..16 qubits (q10 sorts before q2 as
+text) and circuits whose qubits carry user-chosen names (the decompiler names qubits q{index} whatever they are
+called).  Wide circuits are judged on every assignment of the qubits a section involves (wires of its gates, keys
+and symbols of its expressions; more than 10 of them: a fixed sample), the others 0.
 """
 from __future__ import annotations
 
 import itertools
 import json
+import random
 
 from . import bexp, circ
 from .common import Ctx, Result
@@ -82,10 +92,17 @@ def expected_runs(gates):
 
 # ------------------------------------------------------------------ the real code
 
-def code_decompile(n, gates):
+def code_decompile(n, gates, opts=None):
+    """run the real decompiler on a real circuit: built gate by gate (equal id > 0 = the same gate object,
+    `names` = user-chosen qubit names) or, when the case carries a recipe, through the library's own
+    composition API (qc += sub twice, append_circuit, repeat, ...)"""
     from qlasskit.decompiler import Decompiler
 
-    qc = circ.build_qc(n, gates)
+    opts = opts or {}
+    if opts.get("recipe"):
+        qc = circ.build_api(opts["recipe"])
+    else:
+        qc = circ.build_qc(n, gates, names=opts.get("names"))
     try:
         res = Decompiler().decompile(qc)
     except Exception as e:  # noqa
@@ -102,8 +119,45 @@ def code_decompile(n, gates):
 
 # ------------------------------------------------------------------ the oracle
 
-def exps_table(n, exps):
-    """truth table of the n per-qubit functions (identity where no expression), or an error string"""
+FULL = 6        # up to this many qubits a section is judged on all 2^n basis states of the circuit
+EXH_BITS = 10   # above: on every assignment of the qubits the section involves, when these are at most so many
+
+
+def involved(n, gates, exps):
+    """the qubits a section can depend on or change: wires of its gates, keys and symbols of its expressions
+    (all qubits for small circuits)"""
+    if n <= FULL:
+        return list(range(n))
+    used = {i for d in gates for i in d["w"]}
+    for k, e in exps:
+        for nm in [k] + list(bexp.syms_json(e)):
+            if nm[:1] == "q" and nm[1:].isdigit() and int(nm[1:]) < n:
+                used.add(int(nm[1:]))
+    return sorted(used)
+
+
+def states_over(n, used):
+    """basis states of the n-qubit circuit over the qubits `used` (the others 0): all of them, or - more than
+    EXH_BITS qubits - 0..0, 1..1, every state of weight 1 / co-weight 1 and 300 fixed pseudo-random ones"""
+    m = len(used)
+    if m <= EXH_BITS:
+        ks = range(2 ** m)
+    else:
+        r = random.Random(f"{n}:{used}")
+        ks = [0, 2 ** m - 1] + [1 << i for i in range(m)] + [(2 ** m - 1) ^ (1 << i) for i in range(m)] + \
+             [r.getrandbits(m) for _ in range(300)]
+    for k in ks:
+        st = [False] * n
+        for b, i in enumerate(used):
+            st[i] = bool((k >> b) & 1)
+        yield st
+
+
+def exps_table(n, exps, used=None):
+    """truth table of the per-qubit functions (identity where no expression) of the qubits `used` (default: all)
+    on states_over(n, used), or an error string"""
+    if used is None:
+        used = list(range(n))
     names = [f"q{i}" for i in range(n)]
     d = {}
     for k, e in exps:
@@ -112,20 +166,29 @@ def exps_table(n, exps):
         if k not in names:
             return f"expression for unknown qubit {k}"
         d[k] = e
-    es = [d.get(nm, ["sym", nm]) for nm in names]
+    for k in d:
+        if int(k[1:]) not in used:
+            return f"expression for {k}, which the section does not involve"
+    es = [d.get(names[i], ["sym", names[i]]) for i in used]
     for e in es:
         for s in bexp.syms_json(e):
             if s not in names:
                 return f"unknown symbol {s}"
-    return bexp.truth_table(names, es)
-
-
-def run_table(n, run):
     out = []
-    for k in range(2 ** n):
-        st = [bool((k >> i) & 1) for i in range(n)]
+    for st in states_over(n, used):
+        env = {names[i]: st[i] for i in range(n)}
+        for e in es:
+            out.append("1" if bexp.eval_json(e, env) else "0")
+    return "".join(out)
+
+
+def run_table(n, run, used=None):
+    if used is None:
+        used = list(range(n))
+    out = []
+    for st in states_over(n, used):
         fin = simulate(run, st)
-        out.append("".join("1" if b else "0" for b in fin))
+        out.append("".join("1" if fin[i] else "0" for i in used))
     return "".join(out)
 
 
@@ -145,11 +208,12 @@ def judge(n, gates, out):
                     dict(ranges=exp_ranges))
         if [gkey(d) for d in s["gates"]] != [gkey(d) for d in rg]:
             return ("section gate list is not the run's gate list", dict(gates=rg))
-        tab = exps_table(n, s["exps"])
-        want = run_table(n, rg)
+        used = involved(n, rg, s["exps"])
+        tab = exps_table(n, s["exps"], used)
+        want = run_table(n, rg, used)
         if tab != want:
             return (f"expressions of section {(s['start'], s['stop'])} do not give the gates' action on every basis state",
-                    dict(table=want, got=tab))
+                    dict(table=want, got=tab, qubits=used))
     return None
 
 
@@ -236,14 +300,191 @@ def random_cases(rng, count):
         yield (n, gs)
 
 
+# ---------------------------------------------------------------- shared gate objects, wide circuits
+
+api_case = circ.api_case
+
+
+def sharing_cases():
+    """the same gate OBJECT at several positions / in several sections (what `qc += sub` twice produces): on the
+    same wires (equal applied-gate tuples), on other wires, first / inner / last gate of a section, shared
+    separators and barriers; gate by gate (ids) and through the real API"""
+    B = G("Barrier", [])
+    out = []
+    Hs, Ts, Bs, Ns = dict(SEPS[0], id=90), dict(SEPS[3], id=91), dict(B, id=92), dict(G("NopGate", []), id=93)
+    runs = RUNS + [[G("I", [0]), G("X", [1])], [G("MCtrl", [0, 1, 2], n=2, g="X"), G("CX", [2, 0])]]
+    for ri, r in enumerate(runs):
+        s = circ.with_ids(r, 1)
+        t = circ.with_ids(runs[(ri + 3) % len(runs)], 20)
+        rot = [dict(d, w=[(i + 1) % 3 for i in d["w"]]) for d in s]
+        for sep in (SEPS[0], SEPS[6], SEPS[9]):
+            out.append((3, s + [sep] + s))
+            out.append((3, s + [sep] + s + [sep] + s))
+            out.append((3, t + [sep] + s + [sep] + t + [B, sep] + s))
+            out.append((3, [sep] + s + [B, sep, B] + s + [B]))
+        out.append((3, s + [Hs] + s[:1] + t))              # only the first object of the later section is an old one
+        out.append((3, t + [Hs] + t[:-1] + s[-1:] + [Ts] + s))    # the last gate of a section occurs again later
+        out.append((3, s + [Hs] + s[1:] + [Hs] + s[-1:] + [Hs] + s))
+        out.append((3, s + [Hs] + rot))                    # same objects, other wires
+        out.append((3, rot + [Hs] + s + [Ts] + rot))
+        out.append((3, [Hs] + s + [Hs] + t + [Hs] + s))    # one separator object at three positions
+        out.append((3, s + [Bs, Hs, Bs] + s + [Bs]))       # one barrier object at three positions
+        out.append((3, s + [Ns, Ts, Ns, Bs] + s + [Ns, Hs] + t))
+        out.append((3, s + s + [Hs] + s))
+        # same first objects, same length, other last gate
+        out.append((3, s + [Hs] + s[:-1] + [G("X", [2])] + [Hs] + s[:-1] + [G("X", [0])]))
+        out.append((3, s[:-1] + [G("X", [1])] + [Hs] + s))                  # twice inside one section, then again
+        out.append((3, s + [B] + s + [Hs, Hs] + s + [B]))
+        out.append((5, s + [G("H", [4])] + t + [G("H", [3])] + s))
+        # through the API
+        sub, sub2 = dict(n=3, gates=r), dict(n=3, gates=runs[(ri + 3) % len(runs)])
+        mixed = dict(n=3, gates=[SEPS[0]] + r + [SEPS[3], B] + sub2["gates"])
+        gate = lambda d: dict(op="gate", g=d)
+        iadd = lambda k: dict(op="iadd", sub=k)
+        app = lambda k, q: dict(op="append_circuit", sub=k, qubits=q)
+        subs = [sub, sub2, mixed]
+        for steps, n in [
+            ([iadd(0), gate(SEPS[0]), iadd(0)], 3),
+            ([iadd(0), gate(SEPS[6]), iadd(0), gate(SEPS[9]), iadd(0)], 3),
+            ([iadd(1), gate(SEPS[0]), iadd(0), gate(B), gate(SEPS[1]), iadd(1), gate(SEPS[2]), iadd(0)], 3),
+            ([app(0, [1, 2, 3]), gate(G("H", [4])), app(0, [1, 2, 3])], 5),
+            ([app(0, [0, 1, 2]), gate(G("H", [4])), app(0, [2, 3, 4]), gate(G("Z", [0])), app(0, [0, 1, 2])], 5),
+            ([app(0, [4, 2, 0]), gate(G("T", [1])), app(1, [4, 2, 0]), gate(G("T", [1])), app(0, [4, 2, 0])], 5),
+            ([iadd(0), gate(SEPS[0]), dict(op="iadd_self")], 3),
+            ([gate(SEPS[4]), iadd(0), dict(op="iadd_self"), dict(op="iadd_self")], 3),
+            ([gate(SEPS[0]), iadd(0), dict(op="repeat", times=2)], 3),
+            ([iadd(0), gate(B), gate(SEPS[5]), dict(op="repeat", times=3)], 3),
+            ([iadd(0), gate(SEPS[0]), dict(op="add", sub=0), gate(SEPS[1]), iadd(0)], 3),
+            ([iadd(2), iadd(2)], 3),
+            ([iadd(2), gate(B), iadd(2), gate(SEPS[7]), iadd(0)], 3),
+        ]:
+            out.append(api_case(dict(n=n, subs=subs, steps=steps)))
+        names = circ.name_schemes(5)
+        for nm in ("letters", "reversed-q", "shifted-q"):
+            out.append(api_case(dict(n=5, names=names[nm], subs=subs,
+                                     steps=[app(0, [1, 2, 3]), gate(G("H", [4])), app(0, [1, 2, 3]), gate(G("H", [0])), app(1, [3, 4, 0])])))
+    return out
+
+
+WIDE = (10, 11, 12, 16)
+
+
+def remap(gates, m):
+    return [dict(d, w=[m[i] for i in d["w"]]) for d in gates]
+
+
+def wide_triples(n):
+    return [(0, 1, 2), (n - 1, 2, n - 2), (1, n - 1, 0), (2, 3, n - 1), (n - 2, n - 1, n - 3), (8, 1, n - 1)]
+
+
+def wide_cases():
+    """circuits on 10, 11, 12, 16 qubits: qubit names q10.. sort before q2 as text; user-chosen names"""
+    B = G("Barrier", [])
+    out = []
+    for n in WIDE:
+        names = circ.name_schemes(n)
+        trs = wide_triples(n)
+        for ri, r in enumerate(RUNS):
+            for ti, m in enumerate(trs):
+                m2 = trs[(ti + 1) % len(trs)]
+                sep = remap([SEPS[(ri + ti) % len(SEPS)]], m2)
+                out.append((n, remap(r, m)))
+                out.append((n, remap(r, m) + sep + remap(RUNS[(ri + 3) % len(RUNS)], m2) + [B]))
+            m = trs[ri % len(trs)]
+            s = circ.with_ids(remap(r, m), 1)
+            out.append((n, s + [G("H", [n - 1])] + s + [G("Swap", [2, n - 1])] + s))
+            for nm in ("letters", "reversed-q", "shifted-q", "padded", "words"):
+                out.append((n, remap(r, m) + [G("H", [n - 1])] + remap(r, trs[(ri + 2) % len(trs)]), dict(names=names[nm])))
+        # one gate on every qubit; a multi-controlled X over many qubits; a run over all qubits
+        out.append((n, [G("X", [i]) for i in range(n)]))
+        out.append((n, [G("X", [i]) for i in reversed(range(n))] + [G("H", [n - 1])] + [G("CX", [i, (i + 1) % n]) for i in range(n)]))
+        k = min(n - 1, 9)
+        w = list(range(n - 1, n - 2 - k, -1))
+        out.append((n, [G("MCX", w, n=k), G("X", [w[0]]), G("MCtrl", w[::-1], n=k, g="X")]))
+        out.append((n, [G("CX", [i, i + 1]) for i in range(n - 1)] + [G("Z", [n - 1])] + [G("CCX", [i + 2, i, i + 1]) for i in range(n - 2)]))
+    return out
+
+
+def random_shared_cases(rng, count):
+    """random sequences over a small pool of applied gates whose gate objects are reused (same or other wires)"""
+    for k in range(count):
+        n = rng.randint(2, 5)
+        pool = []
+        for i in range(rng.randint(2, 5)):
+            d = circ.rand_gate(rng, n, kinds=["X", "CX", "CCX", "MCX", "X", "CX", "H", "Swap", "T", "CZ", "Barrier", "MCtrlX", "I"])
+            pool.append(dict(d, id=i + 1))
+        gs = []
+        for _ in range(rng.randint(2, 14)):
+            d = dict(rng.choice(pool))
+            x = rng.random()
+            if x < 0.15 and d["w"]:
+                d["w"] = rng.sample(range(n), len(d["w"]))     # the same object on other wires
+            elif x < 0.25:
+                d["id"] = 0                                     # an equal gate, but a new object
+            gs.append(d)
+        yield (n, gs)
+
+
+def random_api_cases(rng, count):
+    for k in range(count):
+        n = rng.randint(3, 6)
+        subs = []
+        for _ in range(rng.randint(1, 3)):
+            m = rng.randint(1, min(n, 4))
+            subs.append(dict(n=m, gates=[circ.rand_gate(rng, m, kinds=["X", "CX", "CCX", "MCX", "X", "CX", "H", "T", "Barrier", "Swap"])
+                                         for _ in range(rng.randint(1, 5))]))
+        steps = []
+        for _ in range(rng.randint(2, 6)):
+            x = rng.random()
+            j = rng.randrange(len(subs))
+            if x < 0.35:
+                steps.append(dict(op="append_circuit", sub=j, qubits=rng.sample(range(n), subs[j]["n"])))
+            elif x < 0.55 and subs[j]["n"] <= n:
+                steps.append(dict(op="iadd", sub=j))
+            elif x < 0.62:
+                steps.append(dict(op="iadd_self"))
+            elif x < 0.68:
+                steps.append(dict(op="repeat", times=rng.randint(1, 3)))
+            elif x < 0.74:
+                steps.append(dict(op="add", sub=j))
+            else:
+                steps.append(dict(op="gate", g=circ.rand_gate(rng, n, kinds=["H", "Z", "S", "Swap", "CZ", "X", "CX", "Barrier"])))
+        names = rng.choice(list(circ.name_schemes(n).values()))
+        c = api_case(dict(n=n, names=names, subs=subs, steps=steps))
+        if len(c[1]) <= 60:
+            yield c
+
+
+def random_wide_cases(rng, count):
+    kinds = ["X", "CX", "CCX", "MCX", "X", "CX", "CCX", "H", "Z", "S", "CZ", "Swap", "MCtrlZ", "MCtrlX", "Barrier", "I"]
+    for k in range(count):
+        n = rng.choice([10, 11, 12, 13, 16])
+        gs = [circ.rand_gate(rng, n, kinds=kinds) for _ in range(rng.randint(1, 12))]
+        if k % 3 == 0:
+            # gates concentrated on the qubits whose names sort differently
+            hot = sorted({0, 1, 2, 3, 9, n - 1, n - 2})
+            gs = [dict(d, w=[hot[i % len(hot)] for i in rng.sample(range(len(hot)), len(d["w"]))]) for d in gs]
+        if k % 4 == 1:
+            gs = [dict(d, id=1 + rng.randrange(3)) if d["c"] == "X" else d for d in gs]
+        names = rng.choice(list(circ.name_schemes(n).values())) if k % 2 else None
+        yield (n, gs, dict(names=names))
+
+
 # ------------------------------------------------------------------ comparison with the model
 
 def canon_out(n, out):
     """exact part + functional part of a result (code or model)"""
     if "error" in out:
         return {"error": out["error"]}
-    return {"sections": [dict(range=[s["start"], s["stop"]], gates=[list(map(str, gkey(d))) for d in s["gates"]],
-                              table=exps_table(n, s["exps"])) for s in out["sections"]]}
+    secs = []
+    for s in out["sections"]:
+        used = involved(n, s["gates"], s["exps"])
+        d = dict(range=[s["start"], s["stop"]], gates=[list(map(str, gkey(d))) for d in s["gates"]],
+                 table=exps_table(n, s["exps"], used))
+        if n > FULL:
+            d["qubits"] = used
+        secs.append(d)
+    return {"sections": secs}
 
 
 def has_I(gates):
@@ -262,19 +503,37 @@ def check_batch(ctx, res, cases, bucket):
     """run code + oracle + model on a batch of (n, gates)"""
     quirks = active_quirks(ctx)
     fid = {f["quirk"]: f["id"] for f in ctx.findings if f.get("status", "open") == "open" and f.get("_active")}
+    cases = [c if len(c) == 3 else (c[0], c[1], None) for c in cases]
     outs = []
-    for n, gates in cases:
-        outs.append(code_decompile(n, gates))
+    for n, gates, opts in cases:
+        outs.append(code_decompile(n, gates, opts))
     reqs = []
-    for n, gates in cases:
+    for n, gates, opts in cases:
         reqs.append(dict(op="c11.decompile", n=n, gates=gates, quirks=quirks))
         reqs.append(dict(op="c11.decompile", n=n, gates=gates, quirks=[]))
     replies = ctx.model(reqs)
-    for idx, ((n, gates), out) in enumerate(zip(cases, outs)):
+    for idx, ((n, gates, opts), out) in enumerate(zip(cases, outs)):
         case = dict(n=n, gates=[[d["c"] + (str(d["n"]) if d["c"] in ("MCX", "MCtrl") else "") + d["g"], d["w"]] + ([d["p"]] if d["p"] else []) for d in gates],
                     gates_json=gates)
+        nshared = circ.shared_positions(gates)
+        if nshared:
+            case["same_gate_object_as_an_earlier_position"] = [i for i, d in enumerate(gates) if d.get("id") and
+                                                               any(e.get("id") == d["id"] for e in gates[:i])]
+            res.extra["cases_with_shared_gate_objects"] = res.extra.get("cases_with_shared_gate_objects", 0) + 1
+        if n >= 10:
+            res.extra["cases_on_10_or_more_qubits"] = res.extra.get("cases_on_10_or_more_qubits", 0) + 1
+        if opts:
+            if opts.get("names"):
+                case["names"] = opts["names"]
+            if opts.get("recipe"):
+                case["recipe"] = opts["recipe"]
+                res.extra["cases_built_through_the_api"] = res.extra.get("cases_built_through_the_api", 0) + 1
+            if opts.get("api_mismatch"):
+                res.disagree(case, "the circuit the library's composition API builds is not the gate list the recipe denotes",
+                             code=opts["api_mismatch"])
         nontrivial = sum(1 for d in gates if kind(d) == "cl") >= 1 and len(gates) >= 2
-        res.count(dict(n=n, gates=case["gates"]), nontrivial=nontrivial, bucket=bucket)
+        res.count({k: v for k, v in case.items() if k != "gates_json"} if (opts or nshared) else dict(n=n, gates=case["gates"]),
+                  nontrivial=nontrivial, bucket=bucket)
         verdict = judge(n, gates, out)
         c_code = canon_out(n, out)
         m_quirk = m_none = None
@@ -313,12 +572,20 @@ def run(ctx: Ctx) -> Result:
         "systematic: every run shape x every boundary gate x barriers (0..2) at every boundary position on 3 qubits; "
         "all gate strings of length <= L over a 9-letter alphabet (L=5 thorough, 3 quick) and over the 11-letter "
         "alphabet with I and MCtrl(X) (L=4 thorough, 2 quick); random circuits on 1..5 qubits, <=14 gates; "
+        "circuits in which one gate object occurs at several positions / in several sections (built gate by gate and through "
+        "qc += sub, append_circuit, qc += qc, repeat, +), every run shape on 10/11/12/16 qubits incl. user-chosen qubit "
+        "names, random variants of both (wide circuits judged on all assignments of the qubits a section involves); "
         "case = (n, gate list); non-trivial = at least one classical gate and at least two gates"
     )
     check_batch(ctx, res, boundary_cases(), "boundary")
+    check_batch(ctx, res, sharing_cases(), "shared-objects")
+    check_batch(ctx, res, wide_cases(), "wide")
     check_batch(ctx, res, list(strings_cases(alphabet(), 5 if ctx.thorough else 3)), "strings9")
     check_batch(ctx, res, list(strings_cases(alphabet(True), 4 if ctx.thorough else 2)), "strings11")
     check_batch(ctx, res, list(random_cases(rng, 12000 if ctx.thorough else 1500)), "random")
+    check_batch(ctx, res, list(random_shared_cases(rng, 3000 if ctx.thorough else 400)), "random-shared")
+    check_batch(ctx, res, list(random_api_cases(rng, 1500 if ctx.thorough else 150)), "random-api")
+    check_batch(ctx, res, list(random_wide_cases(rng, 1500 if ctx.thorough else 150)), "random-wide")
     res.exhaustive = True
     res.notes.append("gate strings over the fixed alphabets enumerated completely up to the stated length; "
                      "boundary patterns enumerated completely; random part sampled")
@@ -342,8 +609,13 @@ def replay(ctx: Ctx, payload):
         print("no failing input in this replay file (tie-broken record)")
         return 2
     n, gates = case["n"], case["gates_json"]
-    print("replaying", json.dumps(case.get("gates")), "on", n, "qubits")
-    out = code_decompile(n, gates)
+    opts = dict(names=case.get("names"), recipe=case.get("recipe"))
+    print("replaying", json.dumps(case.get("gates")), "on", n, "qubits" +
+          (", built through the composition API" if opts["recipe"] else "") +
+          (f", qubit names {opts['names']}" if opts["names"] else ""))
+    if case.get("same_gate_object_as_an_earlier_position"):
+        print("positions holding a gate object of an earlier position:", case["same_gate_object_as_an_earlier_position"])
+    out = code_decompile(n, gates, opts)
     print("code:", json.dumps(canon_out(n, out)))
     v = judge(n, gates, out)
     print("oracle:", "property holds" if v is None else v[0])
